@@ -161,6 +161,7 @@ def run(prog):
                     "; ".join(errs) if errs else "fresh variable: label = level = number of variables so far"))
     out += label_order(prog)
     out += [force_permutation(prog)]
+    out += order_selection(prog)
     if n < 8:
         raise CheckerError("VO: only %d table accesses recognised" % n)
     return out
@@ -254,3 +255,128 @@ def force_permutation(prog):
                  "permutation of the variables (a variable that occurs in no clause keeps a stale position that collides)"
                  % (bad[0].callee.name, bad[0].line)) if bad else
                 "zip(0..l) → sort → map → enumerate: every variable is re-positioned in every round")
+
+
+
+def order_selection(prog):
+    """VarOrder::first / sort / first_essential choose by *level*: the operand whose top variable comes earlier in the
+    order is first, an operand without a top variable (a constant) is last.  The bodies are interpreted over the
+    abstract levels {none, 0, 1} of the two operands (every path, branch tests on `var()` and on the level comparison
+    evaluated), and the result is compared with the definition; ties may go either way."""
+    out = []
+    for name in ("first", "sort"):
+        fn = prog.find1(name=name, self_adt=VO, unit="rsdd-lib")
+        te, cfg = fn.terms, fn.cfg
+        A, B = ("param", 2), ("param", 3)
+
+        def lvl(t, env):
+            t = strip(t)
+            s = show(t)
+            if mir.is_call(t, "get") and "var(arg2)" in s:
+                return env[0]
+            if mir.is_call(t, "get") and "var(arg3)" in s:
+                return env[1]
+            return None
+
+        def cond(c, env):
+            c = strip(c)
+            s = show(c)
+            if s == "discr(var(arg2))":
+                return 0 if env[0] is None else 1
+            if s == "discr(var(arg3))":
+                return 0 if env[1] is None else 1
+            if c[0] == "bin" and c[1] in ("Lt", "Le", "Gt", "Ge", "Eq", "Ne"):
+                x, y = lvl(c[2], env), lvl(c[3], env)
+                if x is None or y is None:
+                    return None
+                return int({"Lt": x < y, "Le": x <= y, "Gt": x > y, "Ge": x >= y, "Eq": x == y, "Ne": x != y}[c[1]])
+            return None
+
+        def result(env):
+            res = set()
+
+            def go(b, prev, seen):
+                t = fn.blocks[b]["term"]
+                if t["k"] == "return":
+                    r = strip(te.ret)
+                    if r[0] == "phi":
+                        # the alternative that flowed in along this path
+                        chain = prev
+                        pick = None
+                        for pb, v in r[2]:
+                            pbn = int(str(pb).replace("bb", "")) if not isinstance(pb, int) else pb
+                            if pbn in chain:
+                                pick = strip(v)
+                        r = pick
+                    if r is not None and r[0] == "gamma":
+                        v = cond(r[1], env)
+                        if v is not None:
+                            for lab, x in r[2]:
+                                if lab == str(v) or (isinstance(lab, tuple) and lab[0] == "not" and str(v) not in lab[1]):
+                                    r = strip(x)
+                                    break
+                    res.add(repr(r))
+                    return
+                if t["k"] == "switch":
+                    v = cond(te.switch_term[b][0], env)
+                    if v is None:
+                        nxts = [x for _, x in t["targets"]] + [t["otherwise"]]
+                    else:
+                        tg = [x for vv, x in t["targets"] if int(vv) == v]
+                        nxts = [tg[0]] if tg else [t["otherwise"]]
+                else:
+                    nxts = list(cfg.succ[b])
+                for s_ in nxts:
+                    if fn.blocks[s_]["term"]["k"] == "unreachable" or s_ in seen:
+                        continue
+                    go(s_, prev + [b], seen | {s_})
+            go(0, [], {0})
+            return res
+        errs = []
+        n = 0
+        for la in (None, 0, 1):
+            for lb in (None, 0, 1):
+                if la is None and lb is None:
+                    continue
+                rs = result((la, lb))
+                n += 1
+                ia, ib = (9 if la is None else la), (9 if lb is None else lb)
+                want = []
+                if ia <= ib:
+                    want.append((A, B))
+                if ib <= ia:
+                    want.append((B, A))
+                if name == "first":
+                    good = {repr(w[0]) for w in want}
+                else:
+                    good = {repr(("agg", "tuple", None, None, (w[0], w[1]), ())) for w in want}
+                ok = bool(rs) and all(_same(r, good, name) for r in rs)
+                if not ok:
+                    errs.append("for levels (a: %s, b: %s) it returns %s" % ("none" if la is None else la, "none" if lb is None else lb,
+                                                                             sorted(x[:60] for x in rs)))
+        out.append(inst("VO", "%s:by-level" % fn.npath, VIOLATION if errs else OK, fn, None,
+                        ("%s; the operand whose top variable has the smaller level must come first (constants last)" % errs[0])
+                        if errs else "%d level combinations: earlier level first, constants last" % n))
+    fe = prog.find1(name="first_essential", self_adt=VO, unit="rsdd-lib")
+    r = strip(fe.terms.ret)
+    ok = show(r) == "(var(first(arg1, first(arg1, arg2, arg3), arg4)) as Some).0" or \
+        show(r) == "(var(first(arg1, arg2, first(arg1, arg3, arg4))) as Some).0"
+    out.append(inst("VO", "%s:by-level" % fe.npath, OK if ok else VIOLATION, fe, None,
+                    "top variable of first(first(f, g), h)" if ok else
+                    "first_essential is %s, expected the top variable of first(first(f,g),h)" % show(r)[:80]))
+    return out
+
+
+def _same(r, good, name):
+    if name == "first":
+        return r in good
+    # tuples: compare the two components
+    for g in good:
+        if _components(r) == _components(g):
+            return True
+    return False
+
+
+def _components(rep):
+    import re as _re
+    return tuple(_re.findall(r"\('param', (\d)\)", rep))
